@@ -6,26 +6,18 @@ import Abyss.Gen.Funcs
 `#[derive(Hash)]` on the key newtypes (one `Vec<u8>` field) feeds the hasher
 1. `write_length_prefix(len)` = `write(&len.to_ne_bytes())` — 8 little-endian bytes on x86-64,
 2. `write(bytes)` — the key bytes in one call.
-`MyHasher::write` folds the bytes in chunks of 8, each chunk read **big-endian**,
-`h := xorshift64s (h +wrap chunk)`.  `_xorshift64s` is the generated `Gen.xorshift64s`.
-(Modelled, not translated: the `std` plumbing; validated by facet `F_gen` on every run.)
+`MyHasher::write` (generated: `Gen.hasherWrite`) folds the bytes in chunks of 8, each chunk read
+**big-endian**, `h := xorshift64s (h +wrap chunk)`.
+(Modelled, not translated: the `std` plumbing — length prefix, one `write` per slice; validated
+by facet `gen` on every run.)
 -/
 namespace Abyss
 
-/-- big-endian value of a chunk of at most 8 bytes. -/
-def beVal (bs : List Nat) : Nat := bs.foldl (fun a b => a * 256 + b) 0
-
-/-- `MyHasher::write`: fold chunks of 8 bytes. `fuel` ≥ number of chunks. -/
-def hashWrite : Nat → Nat → List Nat → Nat
-  | 0, h, _ => h
-  | fuel+1, h, bs =>
-    if bs.isEmpty then h
-    else hashWrite fuel (Gen.xorshift64s ((h + beVal (bs.take 8)) % 2^64)) (bs.drop 8)
-
-/-- `hash_value()` of a key with bytes `key`. -/
+/-- `hash_value()` of a key with bytes `key`: the hasher is fed the length prefix (8 little-endian
+bytes, one `write`) and then the key bytes (one `write`). `Gen.hasherWrite` is `MyHasher::write`
+translated from the Rust source on every run. -/
 def hashValue (key : List Nat) : Nat :=
-  let h1 := hashWrite 1 0 (Vu64.leBytes key.length 8)
-  hashWrite (key.length + 1) h1 key
+  Gen.hasherWrite (Gen.hasherWrite 0 (Vu64.leBytes key.length 8)) key
 
 /-- bucket of a key in a table of `n` buckets. -/
 def bucketOf (key : List Nat) (n : Nat) : Nat := hashValue key % n
